@@ -263,6 +263,7 @@ func genCertParse(g *hx.Gen, out *hx.Out) {
 	if total < 24 {
 		total = 24
 	}
+	var prevDER []byte
 	for i := 0; i < total; i++ {
 		subj := kps[i%len(kps)]
 		issuer := kps[(i/len(kps))%len(kps)]
@@ -280,6 +281,13 @@ func genCertParse(g *hx.Gen, out *hx.Out) {
 		}
 		emit("trailing", append(append([]byte{}, der...), byte(g.Intn(256))), nil)
 		emit("trailing", append(append([]byte{}, der...), der[:5]...), nil)
+		// the trailing data is itself a complete certificate (the same one, another one), or two
+		emit("trailing", append(append([]byte{}, der...), der...), nil)
+		if prevDER != nil {
+			emit("trailing", append(append([]byte{}, der...), prevDER...), nil)
+			emit("trailing", append(append(append([]byte{}, der...), prevDER...), der...), nil)
+		}
+		prevDER = der
 		for j := 0; j < 6; j++ {
 			m := append([]byte{}, der...)
 			switch g.Intn(3) {
